@@ -2,6 +2,7 @@ package main
 
 import (
 	"fmt"
+	"go/constant"
 	"go/token"
 	"go/types"
 	"sort"
@@ -672,6 +673,13 @@ func c14TriviaStep(c *Ctx) {
 			if inner[b] {
 				good = false
 				why = "the skip sits in an inner loop, so it moves over characters the trip did not classify"
+				// a run of single-byte blanks skipped under a constant byte table: every byte the loop steps over is
+				// classified by the table, and every byte the table admits is plain white space (not a line break)
+				if tw := c.blankRunSkip(scan, st, loops); tw == "" {
+					good = true
+				} else if tw != "-" {
+					why += "; " + tw
+				}
 			}
 			c.R.Check(rule, fmt.Sprintf("skip#%d", n), c.P.InstrPos(in), good, "between tokens the scanner must skip exactly the one rune it decoded and classified in this trip (pos += size); "+why)
 		}
@@ -1033,4 +1041,105 @@ func c14LookaheadGuards(c *Ctx) {
 		})
 	}
 	c.R.Floor(rule, 1)
+}
+
+// blankRunSkip judges a position store inside an inner loop of Scan: "" when it is `pos++` in a loop whose every
+// iteration is entered through a test `T[text[pos]]` on a package-level constant [N]bool table T all of whose true
+// entries are ASCII bytes for which IsWhiteSpace holds and IsLineBreak does not; "-" when the store has no such form;
+// otherwise what is wrong with the table.
+func (c *Ctx) blankRunSkip(scan *ssa.Function, st *ssa.Store, loops []*Loop) string {
+	bo, ok := st.Val.(*ssa.BinOp)
+	if !ok || bo.Op != token.ADD {
+		return "-"
+	}
+	u, isU := bo.X.(*ssa.UnOp)
+	k, isK := constIntArg(bo.Y)
+	if !isU || !isScannerField(u.X, "pos") || !isK || k != 1 {
+		return "-"
+	}
+	// the innermost loop that holds the store
+	var l *Loop
+	for _, x := range loops {
+		if x.Body[st.Block()] && (l == nil || len(x.Body) < len(l.Body)) {
+			l = x
+		}
+	}
+	if l == nil {
+		return "-"
+	}
+	// the table test that guards the block of the store
+	var table *ssa.Global
+	for d := st.Block(); d != nil && l.Body[d]; d = d.Idom() {
+		id := d.Idom()
+		if id == nil || len(id.Instrs) == 0 || len(d.Preds) != 1 {
+			continue
+		}
+		iff, isIf := id.Instrs[len(id.Instrs)-1].(*ssa.If)
+		if !isIf || id.Succs[0] != d {
+			continue
+		}
+		conds := conjunctsOf(iff.Cond, 0)
+		if conds == nil {
+			conds = []ssa.Value{iff.Cond}
+		}
+		for _, cd := range conds {
+			ld, ok := cd.(*ssa.UnOp)
+			if !ok || ld.Op != token.MUL {
+				continue
+			}
+			ia, ok := ld.X.(*ssa.IndexAddr)
+			if !ok {
+				continue
+			}
+			g, ok := ia.X.(*ssa.Global)
+			if !ok {
+				continue
+			}
+			// indexed by the byte at the scanner position
+			idx := ia.Index
+			if cv, isC := idx.(*ssa.Convert); isC {
+				idx = cv.X
+			}
+			bl, ok := idx.(*ssa.UnOp)
+			if !ok || bl.Op != token.MUL {
+				continue
+			}
+			bia, ok := bl.X.(*ssa.IndexAddr)
+			if !ok {
+				continue
+			}
+			tl, ok1 := bia.X.(*ssa.UnOp)
+			pl, ok2 := bia.Index.(*ssa.UnOp)
+			if ok1 && ok2 && isScannerField(tl.X, "text") && isScannerField(pl.X, "pos") {
+				table = g
+			}
+		}
+	}
+	if table == nil {
+		return "-"
+	}
+	ents, ok := (&Folder{P: c.P}).globalArray(table)
+	if !ok {
+		return "the table " + table.Name() + " is not a constant array"
+	}
+	for b, v := range ents {
+		if v.K != lConst || v.C == nil || v.C.Kind() != constant.Bool || !constant.BoolVal(v.C) {
+			continue
+		}
+		if b >= 0x80 {
+			return fmt.Sprintf("the table %s admits byte 0x%02X, a part of a multi-byte character", table.Name(), b)
+		}
+		ws, ok1 := c.foldRuneFn("IsWhiteSpace", rune(b))
+		lb, ok2 := c.foldRuneFn("IsLineBreak", rune(b))
+		if !ok1 || !ok2 {
+			return "the class predicates do not fold"
+		}
+		if lb {
+			return fmt.Sprintf("the table %s admits U+%04X, a line break: swallowed in a run of blanks it does not set the preceding-line-break flag", table.Name(), b)
+		}
+		if !ws {
+			return fmt.Sprintf("the table %s admits U+%04X, which is not white space", table.Name(), b)
+		}
+	}
+	return ""
 }
